@@ -308,7 +308,8 @@ RecvVerdict(S, e, m) ==
       X == S.ss[e][s]
       rangeBad == IF outb THEN s >= S.nextOut[e] ELSE s > S.maxIn[e]
   IN
-  IF s < 1 \/ s > MaxId THEN "bad stream identifier"
+  IF m.k = "hb" THEN "discard"                 \* heartbeat: strobes the heartbeats channel (MuxHeart), no stream state
+  ELSE IF s < 1 \/ s > MaxId THEN "bad stream identifier"
   ELSE IF m.k = "open" THEN
        (IF outb THEN "outbound stream identifier used by remote to open stream"
         ELSE IF s <= S.maxIn[e] THEN "remote stream identifiers not monotonically increasing"
@@ -385,7 +386,7 @@ DoRecv(S, e) == RecvMsg([S EXCEPT !.wire[Peer(e)] = Tail(@)], e, Head(S.wire[Pee
 (***************************************************************************)
 SenderRule(S, e, m) ==
   LET s == m.s IN
-  /\ s >= 1 /\ s <= MaxId
+  /\ (m.k = "hb" \/ (s >= 1 /\ s <= MaxId))
   /\ CASE m.k = "open"   -> IsOut(e, s)
        [] m.k = "accept" -> ~IsOut(e, s)
        [] m.k = "data"   -> m.a > 0 /\ (m.d # <<>> => m.a = Len(m.d))   \* the tap may omit the payload
